@@ -235,25 +235,33 @@ class ModificationAwareTestCaseVisitor(ABC):
         """
 
 
-def _removal_drops_assertions(test_case: tc.TestCase, index: int) -> bool:
-    """Check whether removing a statement would remove an oracle.
+def _removal_affects_assertions(test_case: tc.TestCase, index: int, protected: set[str]) -> bool:
+    """Check whether removing a statement could remove or invalidate an oracle.
 
     The assertions attached to a statement need not read its own variable: the state of
     an object is asserted after the call that changed it.  Removing such a call drops
-    these assertions, and the ones that later statements make about the same state no
-    longer hold.
+    these assertions.  Likewise, a call on an object that an assertion depends on may
+    change what a later assertion observes, whether the call itself carries an assertion
+    or not; without it the remaining assertions need not hold any more.
 
     Args:
         test_case: The test case
         index: The index of the statement that would be removed
+        protected: The variables that assertions depend on
 
     Returns:
-        Whether the statement or one of its forward dependencies carries an assertion
+        Whether the statement or one of its forward dependencies carries an assertion,
+        binds a protected variable or uses one
     """
-    return any(
-        test_case.get_statement(position).assertions
-        for position in test_case.forward_dependencies(index)
-    )
+    for position in test_case.forward_dependencies(index):
+        statement = test_case.get_statement(position)
+        if (
+            statement.assertions
+            or statement.bound_variable in protected
+            or not protected.isdisjoint(statement.used_variables())
+        ):
+            return True
+    return False
 
 
 class IterativeMinimizationVisitor(ModificationAwareTestCaseVisitor):
@@ -303,8 +311,7 @@ class ForwardIterativeMinimizationVisitor(IterativeMinimizationVisitor):
             statements_changed = False
             i = 0
             while i < test_case.size():
-                statement = test_case.get_statement(i)
-                if statement.bound_variable in protected or _removal_drops_assertions(test_case, i):
+                if _removal_affects_assertions(test_case, i, protected):
                     i += 1
                     continue
                 test_clone = test_case.clone()
@@ -336,8 +343,7 @@ class BackwardIterativeMinimizationVisitor(IterativeMinimizationVisitor):
             statements_changed = False
             i = test_case.size() - 1
             while i >= 0:
-                statement = test_case.get_statement(i)
-                if statement.bound_variable in protected or _removal_drops_assertions(test_case, i):
+                if _removal_affects_assertions(test_case, i, protected):
                     i -= 1
                     continue
                 test_clone = test_case.clone()
@@ -516,9 +522,7 @@ class CombinedMinimizationVisitor(cv.ChromosomeVisitor):
                 protected = get_assertion_protected_variables(test_case)
                 i = 0
                 while i < test_case.size():
-                    if test_case.get_statement(
-                        i
-                    ).bound_variable in protected or _removal_drops_assertions(test_case, i):
+                    if _removal_affects_assertions(test_case, i, protected):
                         i += 1
                         continue
                     test_suite_clone = chromosome.clone()
